@@ -352,4 +352,7 @@ example : QuotaInv 2 { subs := ["a", "b"] } := by
 example : window 2 ["a", "b", "a", "c"] = ["c", "a"] := by decide
 example : (feedIds 2 [] ["a", "b", "a", "c", "a"]).2 = [false, false, true, false, true] := by decide
 
+/-- the one-sided middlewares hand the other direction over untouched (source text, regenerated) -/
+theorem pass_through_pinned : passThroughActual = passThroughExpected := by decide
+
 end Moc.C18
